@@ -106,6 +106,23 @@ public:
 			++queue->queueNotifyCounter;
 		}
 
+		// A copy is another object that keeps the notification disabled, so it counts on its own.
+		DisableQueueNotify(const DisableQueueNotify & other)
+			: queue(other.queue)
+		{
+			++queue->queueNotifyCounter;
+		}
+
+		DisableQueueNotify & operator = (const DisableQueueNotify & other)
+		{
+			if(queue != other.queue) {
+				// temp's destructor releases the queue this object disabled before
+				DisableQueueNotify temp(other);
+				std::swap(queue, temp.queue);
+			}
+			return *this;
+		}
+
 		~DisableQueueNotify()
 		{
 			{
